@@ -1326,65 +1326,75 @@ func (cfg *Config) globDir(base, dir string, matcher func(string) bool, wantDir 
 // empty config.
 func ReadFields(cfg *Config, s string, n int, raw bool) []string {
 	cfg = prepareConfig(cfg)
-	type pos struct {
-		start, end int
-	}
-	var fpos []pos
-
+	// Remove the backslash escapes first, remembering which runes were
+	// escaped; those are never delimiters nor trimmed.
 	runes := make([]rune, 0, len(s))
-	infield := false
+	escaped := make([]bool, 0, len(s))
 	esc := false
 	for _, r := range s {
-		if infield {
-			if cfg.ifsRune(r) && (raw || !esc) {
-				fpos[len(fpos)-1].end = len(runes)
-				infield = false
-			}
-		} else {
-			if !cfg.ifsRune(r) && (raw || !esc) {
-				fpos = append(fpos, pos{start: len(runes), end: -1})
-				infield = true
-			}
-		}
-		if r == '\\' {
-			if raw || esc {
-				runes = append(runes, r)
-			}
-			esc = !esc
+		if r == '\\' && !raw && !esc {
+			esc = true
 			continue
 		}
 		runes = append(runes, r)
+		escaped = append(escaped, esc)
 		esc = false
 	}
-	if len(fpos) == 0 {
+	isSpace := func(i int) bool { return !escaped[i] && cfg.ifsWhitespace(runes[i]) }
+	isDelim := func(i int) bool { return !escaped[i] && cfg.ifsRune(runes[i]) }
+	pos := 0
+	skipSpace := func() {
+		for pos < len(runes) && isSpace(pos) {
+			pos++
+		}
+	}
+	// word reads one field and the delimiter which ends it: either IFS
+	// whitespace optionally followed by one other IFS character, or one
+	// non-whitespace IFS character; in both cases with any IFS whitespace
+	// which follows.
+	word := func() string {
+		start := pos
+		for pos < len(runes) && !isDelim(pos) {
+			pos++
+		}
+		w := string(runes[start:pos])
+		if pos < len(runes) {
+			if isSpace(pos) {
+				skipSpace()
+				if pos < len(runes) && isDelim(pos) {
+					pos++
+					skipSpace()
+				}
+			} else {
+				pos++
+				skipSpace()
+			}
+		}
+		return w
+	}
+	skipSpace()
+	if pos == len(runes) {
 		return nil
 	}
-	if infield {
-		fpos[len(fpos)-1].end = len(runes)
+	var fields []string
+	for pos < len(runes) && (n < 0 || len(fields) < n-1) {
+		fields = append(fields, word())
 	}
-
-	switch {
-	case n == 1:
-		// The single field spans the whole line minus leading and trailing
-		// IFS whitespace; anything outside the fields is already IFS.
-		lo, hi := 0, len(runes)
-		for lo < fpos[0].start && cfg.ifsWhitespace(runes[lo]) {
-			lo++
+	if n > 0 && len(fields) == n-1 && pos < len(runes) {
+		// The last field gets the rest of the line. If that is a single
+		// field, its delimiter is dropped; otherwise only the trailing
+		// IFS whitespace is.
+		start := pos
+		w := word()
+		if pos < len(runes) {
+			// Like bash, this also drops escaped IFS whitespace.
+			end := len(runes)
+			for end > start && cfg.ifsWhitespace(runes[end-1]) {
+				end--
+			}
+			w = string(runes[start:end])
 		}
-		for hi > fpos[len(fpos)-1].end && cfg.ifsWhitespace(runes[hi-1]) {
-			hi--
-		}
-		fpos[0].start, fpos[0].end = lo, hi
-		fpos = fpos[:1]
-	case n != -1 && n < len(fpos):
-		// combine to max n fields
-		fpos[n-1].end = fpos[len(fpos)-1].end
-		fpos = fpos[:n]
-	}
-
-	fields := make([]string, len(fpos))
-	for i, p := range fpos {
-		fields[i] = string(runes[p.start:p.end])
+		fields = append(fields, w)
 	}
 	return fields
 }
